@@ -2,6 +2,7 @@ package spec
 
 import (
 	"go/ast"
+	"go/token"
 	"go/types"
 	"strings"
 
@@ -34,30 +35,88 @@ func nullableByPresence(r *an.Run, pkgs []string, floor int, why string) {
 					if e == nil {
 						continue
 					}
-					ast.Inspect(e, func(n ast.Node) bool {
-						sel, ok := n.(*ast.SelectorExpr)
-						if !ok || !payload[sel.Sel.Name] {
+					// the payload may reach the condition through locals
+					// (`code := col.Int32; if code != 0`, `kind := T(col.Int32);
+					// switch kind`): follow every local mentioned in the
+					// condition to all its definitions
+					seen := map[types.Object]bool{}
+					var scan func(e ast.Node, depth int)
+					scan = func(e ast.Node, depth int) {
+						ast.Inspect(e, func(n ast.Node) bool {
+							if u, ok := n.(*ast.UnaryExpr); ok && u.Op == token.AND {
+								return false // a pointer to a copy: its nil-ness is a presence test of its own
+							}
+							if id, ok := n.(*ast.Ident); ok && depth < 5 {
+								if obj, ok := info.Uses[id].(*types.Var); ok && !obj.IsField() && !seen[obj] {
+									seen[obj] = true
+									for _, d := range nullableLocalDefs(f, obj) {
+										scan(d, depth+1)
+									}
+								}
+								return true
+							}
+							sel, ok := n.(*ast.SelectorExpr)
+							if !ok || !payload[sel.Sel.Name] {
+								return true
+							}
+							t := info.TypeOf(sel.X)
+							if t == nil {
+								return true
+							}
+							nt, ok := types.Unalias(t).(*types.Named)
+							if !ok || nt.Obj().Pkg() == nil || nt.Obj().Pkg().Path() != "database/sql" || !strings.HasPrefix(nt.Obj().Name(), "Null") {
+								return true
+							}
+							x := f.Canon(sel.X)
+							s := an.Site{Fn: f, V: v, Node: v.Node}
+							fact := an.Truth(canonTerm("^"+regexpQuote(x)+`\.Valid$`), true, an.Text(sel.X)+".Valid")
+							ok2, _ := f.Guarded(s, fact)
+							o.Site("%s tests %s (guarded by Valid: %v)", f.Where(v.Pos()), an.Text(sel), ok2)
+							if !ok2 {
+								o.FailAt(f.Root().ID+"#payload-of-"+an.Text(sel.X)+"-without-valid", f.Where(v.Pos()), "%s branches on %s (through %s) without testing %s.Valid: NULL and the column's zero value are confused", f.ID, an.Text(sel), an.Text(v.Node), an.Text(sel.X))
+							}
 							return true
-						}
-						t := info.TypeOf(sel.X)
-						if t == nil {
-							return true
-						}
-						nt, ok := types.Unalias(t).(*types.Named)
-						if !ok || nt.Obj().Pkg() == nil || nt.Obj().Pkg().Path() != "database/sql" || !strings.HasPrefix(nt.Obj().Name(), "Null") {
-							return true
-						}
-						x := f.Canon(sel.X)
-						s := an.Site{Fn: f, V: v, Node: v.Node}
-						fact := an.Truth(canonTerm("^"+regexpQuote(x)+`\.Valid$`), true, an.Text(sel.X)+".Valid")
-						ok2, _ := f.Guarded(s, fact)
-						o.Site("%s tests %s (guarded by Valid: %v)", f.Where(sel.Pos()), an.Text(sel), ok2)
-						if !ok2 {
-							o.FailAt(f.Root().ID+"#payload-of-"+an.Text(sel.X)+"-without-valid", f.Where(sel.Pos()), "%s branches on %s without testing %s.Valid: NULL and the column's zero value are confused", f.ID, an.Text(sel), an.Text(sel.X))
-						}
-						return true
-					})
+						})
+					}
+					scan(e, 0)
 				}
 			}
 		})
+}
+
+// nullableLocalDefs returns every expression assigned to the local obj in the
+// root function of f (plain and multi-value assignments, declarations, the
+// init statement of an if / switch).
+func nullableLocalDefs(f *an.Func, obj types.Object) []ast.Expr {
+	info := f.Info()
+	var out []ast.Expr
+	ast.Inspect(f.Root().Body, func(n ast.Node) bool {
+		switch x := n.(type) {
+		case *ast.AssignStmt:
+			for i, l := range x.Lhs {
+				id, ok := ast.Unparen(l).(*ast.Ident)
+				if !ok || (info.Defs[id] != obj && info.Uses[id] != obj) {
+					continue
+				}
+				if len(x.Lhs) == len(x.Rhs) {
+					out = append(out, x.Rhs[i])
+				} else if len(x.Rhs) == 1 {
+					out = append(out, x.Rhs[0])
+				}
+			}
+		case *ast.ValueSpec:
+			for i, nm := range x.Names {
+				if info.Defs[nm] != obj {
+					continue
+				}
+				if len(x.Values) == len(x.Names) {
+					out = append(out, x.Values[i])
+				} else if len(x.Values) == 1 {
+					out = append(out, x.Values[0])
+				}
+			}
+		}
+		return true
+	})
+	return out
 }
